@@ -4,7 +4,11 @@ import (
 	"fmt"
 	"reflect"
 	"strings"
+
+	"github.com/datastax/go-cassandra-native-protocol/datatype"
 )
+
+var tPrimitiveType = reflect.TypeOf(datatype.Int)
 
 // Clone is an independent reflective deep copy (the library's DeepCopy methods are code under
 // test for C17 and are not used by the generators or oracles).
@@ -20,6 +24,9 @@ func cloneVal(v reflect.Value) reflect.Value {
 	case reflect.Ptr:
 		if v.IsNil() {
 			return v
+		}
+		if v.Type() == tPrimitiveType {
+			return v // immutable singletons (datatype.Int, ...): identity is meaningful
 		}
 		n := reflect.New(v.Type().Elem())
 		n.Elem().Set(cloneVal(v.Elem()))
